@@ -79,6 +79,72 @@ def heal : Nat → Nat → Cluster → Cluster
   | 0, _, c => c
   | k + 1, r, c => heal k (r + 1) (fairRound c r)
 
+-- ---------------------------------------------------------------------------------------- instrumented heal
+/-- is this a prev=(0,0) AppendEntries request (the one `filter_out_conflicts_and_append` answers with a reset)? -/
+def isResetMsg : Msg → Bool
+  | .ae _ _ _ r _ => r.prevI == 0 && r.prevT == 0
+  | _ => false
+
+/-- `deliverAll` that also reports the nodes to which a prev=(0,0) request was delivered (the trace prints them after
+    the state of a heal event, so that the C05 / C10 monitors can attribute a discard inside a heal to F9). -/
+def deliverAllR : Nat → Cluster → List NodeId → Cluster × List NodeId
+  | 0, c, acc => (c, acc)
+  | fuel + 1, c, acc =>
+    match smallestMsg c with
+    | none => (c, acc)
+    | some (id, .ae s dst sid req rp) =>
+      if (c.nodes dst).ready && c.valid dst then
+        deliverAllR fuel (step c (.deliverAe id)).1 (if isResetMsg (.ae s dst sid req rp) then dst :: acc else acc)
+      else deliverAllR fuel (step c (.drop id)).1 acc
+    | some (id, .resp _ _ _ _ _) => deliverAllR fuel (step c (.deliverResp id)).1 acc
+
+def fairRoundR (c : Cluster) (r : Nat) (acc : List NodeId) : Cluster × List NodeId :=
+  let c1 := finishElections c
+  match bestLeader c1 with
+  | some l =>
+    let c2 := (step c1 (.tick l)).1
+    deliverAllR (2 * c2.msgs.length + 2) c2 acc
+  | none =>
+    match bestCandidate c1 with
+    | some cand => (runEvents c1 ([Event.tick cand, Event.tick cand] ++ electionEvents c1 cand), acc)
+    | none => (c1, acc)
+
+def healR : Nat → Nat → Cluster → List NodeId → Cluster × List NodeId
+  | 0, _, c, acc => (c, acc)
+  | k + 1, r, c, acc => let x := fairRoundR c r acc; healR k (r + 1) x.1 x.2
+
+theorem deliverAllR_fst : ∀ (fuel : Nat) (c : Cluster) (acc : List NodeId), (deliverAllR fuel c acc).1 = deliverAll fuel c := by
+  intro fuel
+  induction fuel with
+  | zero => intro c acc; rfl
+  | succ f ih =>
+    intro c acc
+    unfold deliverAllR deliverAll
+    split
+    · rfl
+    · split
+      · exact ih _ _
+      · exact ih _ _
+    · exact ih _ _
+
+theorem fairRoundR_fst (c : Cluster) (r : Nat) (acc : List NodeId) : (fairRoundR c r acc).1 = fairRound c r := by
+  unfold fairRoundR fairRound
+  dsimp only
+  split
+  · exact deliverAllR_fst _ _ _
+  · split <;> rfl
+
+/-- the instrumented heal is the heal the C32 statements are about -/
+theorem healR_fst : ∀ (k r : Nat) (c : Cluster) (acc : List NodeId), (healR k r c acc).1 = heal k r c := by
+  intro k
+  induction k with
+  | zero => intro r c acc; rfl
+  | succ k ih =>
+    intro r c acc
+    unfold healR heal
+    dsimp only
+    rw [ih, fairRoundR_fst]
+
 /-- recovered: some ready node leads, every node that is up and not blocked has the leader's log, and the leader has
     committed all of it -/
 def recovered (c : Cluster) : Bool :=
